@@ -511,16 +511,17 @@ impl super::MainState {
                 )
                 .await?;
             }
-            if end {
-                self.feed_msg(
-                    &mut conn_state.stream,
-                    RplEndOfNames366 {
-                        client,
-                        channel: channel_name,
-                    },
-                )
-                .await?;
-            }
+        }
+        // send EndOfNames even if channel is not visible (same as for non-existent channel).
+        if end {
+            self.feed_msg(
+                &mut conn_state.stream,
+                RplEndOfNames366 {
+                    client,
+                    channel: channel_name,
+                },
+            )
+            .await?;
         }
         Ok(())
     }
